@@ -110,6 +110,8 @@ def check(case, rec):
     event_since_fit = False
     amp_fit = False
     history = []
+    np_th = False
+    read_before = set()
     drifted = False
     for step, op in enumerate(case['ops']):
         kind = op[0]
@@ -117,6 +119,7 @@ def check(case, rec):
         tag = 'step %d %s' % (step, op if kind != 'construct' else 'construct')
         if kind == 'construct' or obj is None:
             s = op[1] if kind == 'construct' else case['initial']
+            np_th = False
             obj = make_object(s)
             model = Model(s)
             fits = 0
@@ -163,8 +166,10 @@ def check(case, rec):
             if obj.df_features is None or model.method != 'cycles' or 'amp_consistency' not in obj.df_features.columns:
                 continue
             r = op[1]
+            held = obj.df_features                       # the caller may still hold the table it was given earlier
             before = obj.df_features.copy(deep=True)
-            red = {k: (v - (r or 0) if k.endswith('threshold') else v) for k, v in model.th.items()}
+            src = obj.thresholds if np_th else model.th  # numpy-scalar settings: lower the very objects the user stored
+            red = {k: (v - (r or 0) if k.endswith('threshold') else v) for k, v in src.items()}
             got_red = outcome(lambda: obj.reduce_thresholds(r))
             if got_red[0] != 'ok' or set(got_red[1]) != set(red) or any(got_red[1][k] != red[k] for k in red):
                 raise Violation('reduce_thresholds', '%s: reduce_thresholds(%r) gave %s, every *_threshold lowered by r is %s' % (tag, r, got_red[1], red))
@@ -178,6 +183,11 @@ def check(case, rec):
                     raise Violation('recompute-differs-from-functional', '%s (r=%r): %s | object thresholds %s, model %s' % (tag, r, why, obj.thresholds, model.th))
             elif res_fun[0] != 'ValueError':
                 rec.label('recompute-raises:' + res_fun[0])
+            ok, why = ref.frames_equal(held, before)
+            if not ok:
+                raise Violation('recompute-modified-the-previous-table', '%s: the table held before the call changed: %s (history %s)' % (tag, why, history))
+            if res_obj[0] == 'ok' and obj.df_features is held:
+                raise Violation('recompute-returned-the-previous-table-object', '%s (history %s)' % (tag, history))
             event_since_fit = True
         elif kind == 'load':
             x = sigs[op[1] % len(sigs)]
@@ -188,7 +198,17 @@ def check(case, rec):
             if obj.df_features is not res[1]:
                 raise Violation('load', tag)
             event_since_fit = True
+        elif kind == 'np_thresholds':
+            # the same settings stored as numpy scalars (read from an array / a parameter table)
+            if model.method != 'cycles':
+                continue
+            new = {k: (np.int64(v) if k == 'min_n_cycles' else [np.float32, np.float64, np.float16][op[1] % 3](v)) for k, v in model.th.items()}
+            obj.thresholds = new
+            model.th = {k: (int(v) if k == 'min_n_cycles' else float(v)) for k, v in new.items()}
+            np_th = True
+            event_since_fit = True
         elif kind == 'set_threshold':
+            np_th = False if False else np_th
             key, v = op[1], op[2]
             valid = (list(default_thresholds(model.method)))
             key = valid[key % len(valid)]       # -1 selects min_n_cycles (last key of both default dicts)
@@ -210,6 +230,7 @@ def check(case, rec):
             th['min_n_cycles'] = op[1] % 4
             obj.burst_method = m
             obj.thresholds = dict(th)
+            np_th = False
             model.method, model.th = m, dict(th)
             event_since_fit = True
         elif kind == 'switch_center':
@@ -224,7 +245,9 @@ def check(case, rec):
                     raise Violation('attribute-before-fit', '%s -> %s' % (tag, res[0]))
                 continue
             cols = list(obj.df_features.columns)
-            col = cols[op[1] % len(cols)]
+            burst_cols = [c for c in ('is_burst', 'amp_consistency', 'period_consistency', 'burst_fraction') if c in cols]
+            col = burst_cols[op[1] % len(burst_cols)] if (op[1] % 3 == 0 and burst_cols) else cols[op[1] % len(cols)]
+            read_before.add(col)
             got = getattr(obj, col)
             if not (isinstance(got, np.ndarray) and (ref.same_float(got, obj.df_features[col].values) if got.dtype.kind == 'f'
                                                      else np.array_equal(got, obj.df_features[col].values))):
@@ -232,9 +255,17 @@ def check(case, rec):
             res = outcome(lambda: getattr(obj, 'no_such_column_' + col))
             if res[0] != 'AttributeError':
                 raise Violation('unknown-attribute', '%s -> %s' % (tag, res[0]))
+        # attributes read earlier must keep following the table (no memoised columns)
+        if obj is not None and obj.df_features is not None:
+            for col in sorted(read_before):
+                if col in obj.df_features.columns:
+                    got = getattr(obj, col)
+                    want = obj.df_features[col].values
+                    if not (ref.same_float(got, want) if np.asarray(got).dtype.kind == 'f' else np.array_equal(got, want)):
+                        raise Violation('attribute-stale', '%s: attribute %s no longer matches df_features[%r] (history %s)' % (tag, col, col, history))
         # Informational only: the statement is about results (a fit equals a fresh object's fit), not about the private
         # contents of the option dictionaries, so drift is measured but never reported as a violation.
-        if gen.case_key_json(expand(gen.copy_json(_plain(obj.thresholds)))) != gen.case_key_json(_plain(model.th)) or \
+        if (not np_th and gen.case_key_json(expand(gen.copy_json(_plain(obj.thresholds)))) != gen.case_key_json(_plain(model.th))) or \
                 gen.case_key_json(_plain(obj.burst_kwargs)) != gen.case_key_json(_plain(model.bk)):
             drifted = True
     rec.label('fits:%s' % (fits if fits < 3 else '>=3'), 'amp-fit' if amp_fit else 'no-amp-fit',
@@ -297,13 +328,15 @@ def st_settings(draw, band):
 def st_op(draw, band):
     kind = draw(st.sampled_from(['fit', 'fit', 'fit', 'fit', 'fit', 'fit', 'recompute', 'load', 'set_threshold', 'set_threshold',
                                  'set_burst_option', 'set_burst_option', 'switch_method', 'switch_method', 'switch_center', 'read',
-                                 'read', 'construct']))
+                                 'read', 'construct', 'np_thresholds', 'recompute']))
     if kind == 'fit' or kind == 'load':
         if kind == 'fit' and draw(st.integers(0, 3)) == 0:
             kind = 'fit_buffer'
         return [kind, draw(st.integers(0, 3))]
     if kind == 'recompute':
         return [kind, draw(st.sampled_from([None, 0, 0.05, 0.1, 0.3]))]
+    if kind == 'np_thresholds':
+        return [kind, draw(st.integers(0, 2))]
     if kind == 'set_threshold':
         return [kind, draw(st.sampled_from([0, 1, 2, 3, 4, -1, -1, -1])), draw(st.sampled_from([0.0, 0.125, 0.25, 0.5, 0.75]))]
     if kind == 'set_burst_option':
@@ -340,6 +373,7 @@ def check_group(case, rec):
         bg = BycycleGroup(center_extrema=kw['center_extrema'], burst_method=kw['burst_method'], burst_kwargs=kw['burst_kwargs'],
                           thresholds=gen.copy_json(s.get('th')), find_extrema_kwargs=kw['find_extrema_kwargs'], return_samples=kw['return_samples'])
     nfits = 0
+    rebound = False
     for step, op in enumerate(case['ops']):
         if op[0] == 'fit':
             shape = op[1]
@@ -356,6 +390,7 @@ def check_group(case, rec):
             if res[0] != 'ok':
                 raise Violation('group-fit-raises', 'step %d: %s %s' % (step, res[0], res[1]))
             nfits += 1
+            rebound = False
             pos = [(i,) for i in range(shape[0])] if len(shape) == 1 else [(i, j) for i in range(shape[0]) for j in range(shape[1])]
             if len(bg.models) != shape[0] or (len(shape) == 2 and any(len(r) != shape[1] for r in bg.models)):
                 raise Violation('group-models-layout', 'step %d (fit #%d): %d models for shape %s' % (step, nfits, len(bg.models), shape))
@@ -371,13 +406,27 @@ def check_group(case, rec):
                     raise Violation('group-model-table', 'step %d position %s' % (step, p))
                 if not np.array_equal(mdl.sig, sig):
                     raise Violation('group-model-signal', 'step %d position %s' % (step, p))
+        elif op[0] == 'rebind':
+            # settings are public attributes: assigning a new value / a new dict must take effect at the next fit
+            if op[1] == 0:
+                new_c = 'trough' if m.center == 'peak' else 'peak'
+                bg.center_extrema = new_c
+                m.center = new_c
+            else:
+                new_th = dict(m.th)
+                keys = [k for k in new_th if k != 'min_n_cycles'] or list(new_th)
+                key = keys[op[2] % len(keys)]
+                new_th[key] = [0.0, 0.3, 0.6][op[2] % 3] if key != 'min_n_cycles' else 1 + op[2] % 3
+                bg.thresholds = dict(new_th)
+                m.th = dict(new_th)
+            rebound = True        # the statement fixes what the NEXT FIT yields; what the already built models use is unspecified
         elif op[0] == 'set_threshold':
             valid = list(default_thresholds(m.method))
             key = valid[op[1] % len(valid)]
             v = int(op[2] * 8) % 4 + 1 if key == 'min_n_cycles' else op[2]
             bg.thresholds[key] = v            # the settings object the group was constructed with / exposes
             m.th[key] = v
-        elif op[0] == 'recompute' and nfits and m.method == 'cycles':
+        elif op[0] == 'recompute' and nfits and m.method == 'cycles' and not rebound:
             flat_models = [mm for r in bg.models for mm in (r if isinstance(r, list) else [r])]
             before = [mm.df_features.copy(deep=True) for mm in flat_models]
             r = op[1]
@@ -404,6 +453,8 @@ def strat_group(draw, tier):
             if draw(st.integers(0, 2)) > 0:
                 ops.append(['set_threshold', draw(st.integers(0, 4)), draw(st.sampled_from([0.0, 0.125, 0.5, 0.875]))])
             ops.append(['recompute', draw(st.sampled_from([None, 0.05, 0.2]))])
+        elif draw(st.integers(0, 3)) == 0:
+            ops.append(['rebind', draw(st.integers(0, 1)), draw(st.integers(0, 5))])
         else:
             shape = draw(st.sampled_from([[1], [2], [3], [1, 2], [2, 2], [2, 1], [3, 2]]))
             ops.append(['fit', shape, draw(st.integers(0, 4)), draw(st.sampled_from([1, 2]))])
